@@ -352,6 +352,8 @@ def _run_matching(case, network, mt, mi, ctx, cls, stats):
     from tracklib.core.track_collection import TrackCollection
     net = case["net"]
     tracks = [gen.make_track([f[:3] for f in t["fixes"]], times_ms=t["times_ms"]) for t in mt["tracks"]]
+    if mi % 3 == 1:
+        tracks = [gen.derive(t, (mi, k, mt["radius"]))[0] for k, t in enumerate(tracks)]
     snaps = [_snapshot(t) for t in tracks]
     obs_ids = [[id(o) for o in t] for t in tracks]
     radius = mt["radius"]
